@@ -414,6 +414,13 @@ impl<'tcx> Extract<'tcx> {
                     _ => break,
                 }
             }
+            if let hir::ExprKind::Call(..) = e.kind {
+                out.push(J::obj(vec![
+                    ("path", s(self.path(ldid.to_def_id()))),
+                    ("loc", self.loc(tcx.def_span(ldid.to_def_id()))),
+                    ("expr", self.hir_expr(e, 0)),
+                ]));
+            }
             if let hir::ExprKind::Array(elems) = e.kind {
                 let mut rows = Vec::new();
                 for el in elems.iter() {
@@ -431,7 +438,7 @@ impl<'tcx> Extract<'tcx> {
 
     fn hir_expr(&self, e: &rustc_hir::Expr<'tcx>, depth: usize) -> J {
         use rustc_hir as hir;
-        if depth > 6 {
+        if depth > 12 {
             return J::Null;
         }
         match e.kind {
@@ -443,6 +450,7 @@ impl<'tcx> Extract<'tcx> {
                 rustc_ast::LitKind::Char(c) => J::obj(vec![("char", s(c.to_string()))]),
                 rustc_ast::LitKind::Byte(b) => J::obj(vec![("byte", J::Int(b as i128))]),
                 rustc_ast::LitKind::Bool(b) => J::Bool(b),
+                rustc_ast::LitKind::ByteStr(ref sym, _) => J::obj(vec![("bytes", J::Arr(sym.as_byte_str().iter().map(|b| J::Int(*b as i128)).collect()))]),
                 _ => J::obj(vec![("lit", s(format!("{:?}", l.node)))]),
             },
             hir::ExprKind::Path(ref qp) => {
@@ -460,6 +468,9 @@ impl<'tcx> Extract<'tcx> {
                 ("args", J::Arr(args.iter().map(|x| self.hir_expr(x, depth + 1)).collect())),
             ]),
             hir::ExprKind::AddrOf(_, _, inner) => self.hir_expr(inner, depth + 1),
+            hir::ExprKind::Cast(inner, _) => self.hir_expr(inner, depth + 1),
+            hir::ExprKind::DropTemps(inner) => self.hir_expr(inner, depth + 1),
+            hir::ExprKind::Block(b, _) if b.stmts.is_empty() && b.expr.is_some() => self.hir_expr(b.expr.unwrap(), depth + 1),
             hir::ExprKind::Struct(qp, fields, _) => {
                 let hid = e.hir_id;
                 let tr = self.tcx.typeck(hid.owner.def_id);
@@ -778,6 +789,15 @@ impl<'tcx> Extract<'tcx> {
                         for bbdata in pb.basic_blocks.iter() {
                             for st in bbdata.statements.iter() {
                                 if let StatementKind::Assign(bx) = &st.kind {
+                                    if let Rvalue::Use(Operand::Constant(c2), _) = &bx.1 {
+                                        let t2 = c2.const_.ty();
+                                        if t2.is_char() || t2.is_integral() {
+                                            if let Some(sc) = c2.const_.try_eval_scalar_int(tcx, TypingEnv::fully_monomorphized()) {
+                                                let bits = sc.to_bits(sc.size());
+                                                o.push((if t2.is_char() { "char" } else { "int" }, J::Int(bits as i128)));
+                                            }
+                                        }
+                                    }
                                     if let Rvalue::Aggregate(kind, ops) = &bx.1 {
                                         if let AggregateKind::Adt(d, vi, _, _, _) = &**kind {
                                             let adt = tcx.adt_def(*d);
